@@ -51,6 +51,8 @@ pub enum Req {
     Forget1,
     Forget2,
     New3,
+    /// NewChannel for the id of the stub that already exists (answered with the existing stub)
+    New2,
     Setup2,
     Balance,
     Heartbeat,
@@ -237,6 +239,7 @@ fn exec(c: &Ctx, r: Req) -> String {
         Req::Forget1 => tag(w.forget_channel(1).map_ok()),
         Req::Forget2 => tag(w.forget_channel(2).map_ok()),
         Req::New3 => tag(w.new_channel(3).map_ok()),
+        Req::New2 => tag(w.new_channel(2).map_ok()),
         Req::NewRandom => {
             let node = w.node.clone();
             tag(call(move || node.new_channel_with_random_id(&node).map(|(id, _)| id.to_string()).map_err(|e| status_kind(&e))))
@@ -430,6 +433,9 @@ pub fn scenarios(tier: Tier) -> Vec<Scenario> {
     // two channels whose ids the signer picks itself, and one next to an explicit id
     v.push(Scenario { prep: vec![], reqs: vec![NewRandom, NewRandom], then: vec![] });
     v.push(Scenario { prep: vec![NewRandom], reqs: vec![NewRandom, New3], then: vec![] });
+    // a stub is asked for again while it is being forgotten (the id must not come back to life)
+    v.push(Scenario { prep: vec![], reqs: vec![New2, Forget2], then: vec![] });
+    v.push(Scenario { prep: vec![], reqs: vec![New2, Setup2], then: vec![] });
     // a channel is used while it is being set up
     v.push(Scenario { prep: vec![], reqs: vec![Setup2, SignCp2], then: vec![] });
     // two approvals while the wall clock crosses a velocity bucket boundary
@@ -1055,7 +1061,7 @@ pub fn main(tier: Tier) -> i32 {
     let t0 = Instant::now();
     let plan: Vec<(usize, f64, f64)> = match tier {
         // (bound, per-scenario wall, deadline from the start)
-        Tier::Quick => vec![(1, 40.0, 44.0), (2, 30.0, 56.0)],
+        Tier::Quick => vec![(1, 60.0, 110.0), (2, 30.0, 56.0)],
         Tier::Thorough => vec![(1, 300.0, 600.0), (2, 1500.0, 2400.0), (3, 900.0, 3300.0)],
     };
     let maxb0 = plan.iter().map(|p| p.0).max().unwrap();
